@@ -371,3 +371,51 @@ func verifHarness_C08_chunk_size_near_limits() {
 	verifAssertD(seen.reqs == 0, "incomplete-chunk-delivers-nothing", "")
 	verifAssert(false, "witness")
 }
+
+// an incomplete body (Content-Length or chunk data) arriving in many small
+// reads: what the parser retains stays within ReadLimit plus one read, so a
+// body larger than the limit must be refused before it has been buffered.
+func verifHarness_C08_read_limit_incomplete_body_small_reads() {
+	verifBound("body_declared", 40)
+	e := verifHTTPEngine()
+	rl := verifInt("read_limit", 16, 24)
+	e.ReadLimit = rl
+	var head string
+	if verifChoose("framing", 2) == 0 {
+		head = "POST / HTTP/1.1\r\nContent-Length: 40\r\n\r\n"
+	} else {
+		head = "POST / HTTP/1.1\r\nTransfer-Encoding: chunked\r\n\r\n28\r\n"
+	}
+	stream := []byte(head)
+	for i := 0; i < 40; i++ {
+		stream = append(stream, 'x')
+	}
+	rec := &verifRecorder{}
+	p := NewParser(&verifNetConn{failAt: -1}, e, rec, false, nil)
+	step := 1 + verifChoose("read_size", 3)
+	var err error
+	maxRead := 0
+	for pos := 0; pos < len(stream) && err == nil; pos += step {
+		end := pos + step
+		if end > len(stream) {
+			end = len(stream)
+		}
+		err = p.Parse(append([]byte(nil), stream[pos:end]...))
+		if end-pos > maxRead {
+			maxRead = end - pos
+		}
+		cached := 0
+		if p.bytesCached != nil {
+			cached = len(*p.bytesCached)
+		}
+		if err == nil {
+			verifAssertD(cached <= rl+maxRead, "retained-bytes-within-read-limit-plus-one-read", "incomplete-body")
+		}
+	}
+	// 40 body bytes cannot be retained within a limit of at most 24 (+3)
+	verifAssertD(err != nil, "body-beyond-read-limit-refused", "")
+	if err != nil {
+		verifReach("refused")
+	}
+	verifAssert(false, "witness")
+}
